@@ -287,9 +287,9 @@ func init() {
 		Level: "fault_enumeration",
 		Rule: "complete enumeration of {7 writer configurations: 1-3 normal, 1-3 error, 0-2 per-level writers, one with the same writer in both classes} x {logger level Always, Trace, Info, Error, Panic} x {all call sequences of length 1..n over 5 severity classes: normal, error-class, Warn, per-level, custom error device} x {ALL fail/succeed assignments to the first N write attempts (global order across the fault-injecting writers; a failing attempt reports the count 0, half of the payload, -1 or more than the payload, by attempt number; the error value rotates over 14 kinds incl. closed file/pipe, ENOSPC, wrapped ones, two whose dynamic type is not comparable and three that call themselves temporary (EAGAIN, EINTR))}; quick n=2,N=6 (57 600 cases), thorough n=3,N=10 (4 761 600 cases); every case runs on a detached logger AND on a child of a parent that admits everything and has a destination of its own, which must stay empty. " +
 			"After the faulted calls a healthy round issues every class again. Oracle per call over the attempt log: returns without panic; every selected destination is handed the complete record exactly once; diagnostics only at the warning destinations, at most one each, none for a Warn record / unfailed record / logger not admitting Warn; attempts <= |selected|+|warning destinations|; healthy round: normal delivery and no diagnostic, then one record one of whose values logs through another logger while it is being formatted (both records whole, once). " +
-			"defaultdev: 27 cases {stdout, stderr, both redirected onto /dev/full} x {logger never given writers, its child, the package-level functions} x {level Always, Error, Info}: seven calls of mixed severity must return while the process's own devices fail with ENOSPC, and arrive normally once the devices work again. devwriter: 12 cases {root, child, package functions} x {4 logger levels} in which the package's default device (GetDefaultWriter) is ONE of the logger's normal writers next to a recording one while stdout is /dev/full: the other writer gets each record once, at most one diagnostic goes to the logger's own warning destination, nothing reaches the process's stderr. After the faulted calls of every enum case a blank line (Println() / Print(\"\")) must arrive as one newline byte and draw no diagnostic. non-trivial = case in which at least one Write of a record failed; distinct = by case index closedfile: files the application closed (a NewFileWriter log file, the standard-device wrappers after Close on what GetWriterBy hands out, a plain *os.File) stand in front of recording destinations; one kind has an alert destination that removes the failing one when it sees the diagnostic, one a per-level writer for Panic: returns normally, the recording destination gets the record once, at most one diagnostic and only at a warning destination. verbosebuild: 48 cases in a workload built with -tags verbose {logger, child installed as the default logger} x {3 formats} x {1-4 consecutive failing attempts of its first normal destination}, records through package-level functions: one attempt per record at the failing destination, the healthy one behind it holds the record once and nothing else, at most one diagnostic per failing record. addonly: 162 cases {1-3 added normal destinations} x {0-2 added error destinations} x {which added one fails} x {3 formats} x {root, child}, built with AddWriter / AddErrorWriter only so that the standard devices stay in their sets (stdout / stderr of the process are read back): every destination of the record's class is handed it once, reports about the failure go to warning destinations only. After every enum case the process-wide flags are what they were before it.",
+			"defaultdev: 27 cases {stdout, stderr, both redirected onto /dev/full} x {logger never given writers, its child, the package-level functions} x {level Always, Error, Info}: seven calls of mixed severity must return while the process's own devices fail with ENOSPC, and arrive normally once the devices work again. devwriter: 12 cases {root, child, package functions} x {4 logger levels} in which the package's default device (GetDefaultWriter) is ONE of the logger's normal writers next to a recording one while stdout is /dev/full: the other writer gets each record once, at most one diagnostic goes to the logger's own warning destination, nothing reaches the process's stderr. After the faulted calls of every enum case a blank line (Println() / Print(\"\")) must arrive as one newline byte and draw no diagnostic. non-trivial = case in which at least one Write of a record failed; distinct = by case index closedfile: files the application closed (a NewFileWriter log file, the standard-device wrappers after Close on what GetWriterBy hands out, a plain *os.File) stand in front of recording destinations; one kind has an alert destination that removes the failing one when it sees the diagnostic, one a per-level writer for Panic: returns normally, the recording destination gets the record once, at most one diagnostic and only at a warning destination. verbosebuild: 48 cases in a workload built with -tags verbose {logger, child installed as the default logger} x {3 formats} x {1-4 consecutive failing attempts of its first normal destination}, records through package-level functions: one attempt per record at the failing destination, the healthy one behind it holds the record once and nothing else, at most one diagnostic per failing record. addonly: 162 cases {1-3 added normal destinations} x {0-2 added error destinations} x {which added one fails} x {3 formats} x {root, child}, built with AddWriter / AddErrorWriter only so that the standard devices stay in their sets (stdout / stderr of the process are read back): every destination of the record's class is handed it once, reports about the failure go to warning destinations only. After every enum case the process-wide flags are what they were before it. fsizelimit: 24 cases in which a NewFileWriter log file hits the process's file size limit (RLIMIT_FSIZE, EFBIG) for one or two records and the limit is lifted again: the recording destination behind it holds every record once, the later records are in the file, nothing is reported once the file works again.",
 		Assumptions: []string{"a failed attempt counts as 'handed the record once' (the library does not retry)", "destination selection by the C03 model, admission by the C01 rule"},
-		Floors:      map[string]int64{"schedules": 1000, "calls_with_a_failing_write": 1000, "diagnostic_records_seen": 200, "verbose_build_records_judged": 100, "add_only_records_judged": 300},
+		Floors:      map[string]int64{"schedules": 1000, "calls_with_a_failing_write": 1000, "diagnostic_records_seen": 200, "verbose_build_records_judged": 100, "add_only_records_judged": 300, "file_size_limit_cases_judged": 12},
 		Variants:    []string{"verbose"},
 		Exhaustive:  func(string) bool { return true },
 		Jobs: func(tier string, seed int64) []Job {
@@ -302,6 +302,8 @@ func init() {
 			dd = append(dd, Job{Sub: "verbosebuild", Mode: "prod", From: 0, To: 48, Variant: "verbose", Timeout: 10 * time.Minute})
 			// loggers built with Add* calls only (the standard devices stay in their sets), one added normal destination failing
 			dd = append(dd, Job{Sub: "addonly", Mode: "prod", From: 0, To: 162, Timeout: 10 * time.Minute})
+			// a NewFileWriter log file under a real, transient failure of the operating system (the file size limit)
+			dd = append(dd, Job{Sub: "fsizelimit", Mode: "prod", From: 0, To: 24, Timeout: 10 * time.Minute})
 			// under go test the text formats append the details of an error that carries a stack trace to the record
 			if tier == "thorough" {
 				dd = append(dd, chunk("enum", "test", 7*5*155*1024/4, 150000, Job{Timeout: 60 * time.Minute})...)
